@@ -525,6 +525,17 @@ func (l *Lexer) scanTextUntil(stopAtOperator bool) Token {
 		if stopAtOperator && (ch == '@' || ch == '=') {
 			break
 		}
+		if ch == '"' && !l.inHeader {
+			// a quoted commodity symbol may contain the characters that end free text
+			l.advance()
+			for l.pos < len(l.input) && l.peek() != '"' && l.peek() != '\n' && !l.atCRLF() {
+				l.advance()
+			}
+			if l.pos < len(l.input) && l.peek() == '"' {
+				l.advance()
+			}
+			continue
+		}
 		l.advance()
 	}
 
